@@ -51,9 +51,14 @@ def step (st : St) (cmd : String) (impl : String) : St × Verdict :=
     let ramram := !isSparse st.created && !isSparse mode
     let obs := field impl "obs"
     let clean := st.state == "fresh" || st.state == "written" || st.state == "empty"
+    -- `lit`: the options are a literal naming the directory and the mode only (zero segment size, node
+    -- number, …): the mode check must decide as ever; what the rest of `Open` makes of such options is not
+    -- the property's business
+    let lit := f.getD 2 "" == "lit"
     let specOk :=
       if cross then impl == "refused unchanged=true"
       else if isRefused then false
+      else if lit then true
       else if ramram then
         isOk && (if st.state == "fresh" || st.state == "written" then obs == st.mkObs else true) &&
           (match st.ramObs with | some o => o == obs | none => true)
@@ -62,9 +67,9 @@ def step (st : St) (cmd : String) (impl : String) : St × Verdict :=
         -- crash it is property C09 in sparse mode, which is not claimed)
         (if clean then isOk else true)
     let want := if cross then "refused unchanged=true" else "ok" ++ (if ramram && (st.state == "fresh" || st.state == "written") then " obs=" ++ st.mkObs else "")
-    let st' := if ramram && isOk && st.ramObs.isNone then { st with ramObs := some obs } else st
+    let st' := if ramram && isOk && !lit && st.ramObs.isNone then { st with ramObs := some obs } else st
     (st', { model := model, specOk := some specOk, spec := want,
-            cell := s!"reopen/{st.created}->{mode}/{st.state}/{hasDat st.d}/{(words impl).headD ""}" })
+            cell := s!"reopen{if lit then "-lit" else ""}/{st.created}->{mode}/{st.state}/{hasDat st.d}/{(words impl).headD ""}" })
   | _ => (st, { model := "bad-op", specOk := none })
 
 end Nuts.Driver.ModesSuite
